@@ -3,7 +3,10 @@
 
 package backlog
 
-import "reflect"
+import (
+	"reflect"
+	"time"
+)
 
 // Add-only verification hooks (injected through `go build -overlay`; never part of /repo).
 
@@ -36,4 +39,27 @@ func VerifC18Waiters(bl *Backlog) (n int) {
 		return -1
 	}
 	return int(uint32(w.Uint()) - uint32(nt.Uint()))
+}
+
+// verifSlowClose is the backlog's own store with a close() that takes a while (a large file being truncated and closed):
+// nothing else is changed. It widens the window between "the readers were woken" and "the store is closed".
+type verifSlowClose struct {
+	buffer
+	d time.Duration
+}
+
+func (s *verifSlowClose) close() error {
+	time.Sleep(s.d)
+	return s.buffer.close()
+}
+
+// VerifC18SlowClose makes the next Close of bl take at least d inside store.close().
+func VerifC18SlowClose(bl *Backlog, d time.Duration) {
+	bl.mu.Lock()
+	defer bl.mu.Unlock()
+	if bl.store != nil {
+		if _, ok := bl.store.(*verifSlowClose); !ok {
+			bl.store = &verifSlowClose{buffer: bl.store, d: d}
+		}
+	}
 }
